@@ -28,19 +28,24 @@ package ipam
 //@ -- ---------------------------------------------------------------- C21: release
 //@ -- A release request that fails (unknown address, stale sequence number, handle mismatch) fails wholesale:
 //@ -- the block is not touched - and a request carrying a sequence number that differs from the stored one does
-//@ -- fail - cooldown marking, sequence-number bumps and garbage collection happen only
+//@ -- fail; only addresses that are allocated and NOT already cooling down are marked for cooldown (a duplicate
+//@ -- release of a cooling address does not restart its cooldown) - cooldown marking, sequence-number bumps and garbage collection happen only
 //@ -- on the success path, after every address of the request has passed its checks.
 //@ ghost c21Touched bool
 //@ ghost c21Stale bool
+//@ ghost c21OK set[int]
 //@ func (*allocationBlock).release
 //@   property C21
 //@   option safety off
-//@   requires b != nil && !c21Touched && !c21Stale
+//@   option stable []int
+//@   requires b != nil && !c21Touched && !c21Stale && c21OK == emptyset(int)
+//@   ghost at call Debugf#6: c21OK = store(c21OK, ordinal, attrIdx != nil && b.AllocationBlock.Attributes[*attrIdx].ReleasedAt == nil)
 //@   ghost at call GetSequenceNumberForOrdinal#1: c21Stale = c21Stale || (opts.SequenceNumber != nil && res != *opts.SequenceNumber)
 //@   ghost at call addCooldownAttribute: c21Touched = true
-//@   ghost at call SetSequenceNumberForOrdinal: c21Touched = true
+//@   ghost at call SetSequenceNumberForOrdinal: c21Touched = true ; check c21OK[arg1]
 //@   ghost at call garbageCollect: c21Touched = true
 //@   ensures res2 != nil ==> !c21Touched
 //@   ensures c21Stale ==> res2 != nil
-//@   loop 1 invariant !c21Stale && !c21Touched
+//@   loop 1 invariant !c21Stale && !c21Touched && (forall j int :: 0 <= j && j < len(ordinals) ==> c21OK[ordinals[j]])
+//@   loop 3 invariant -1 <= rangeindex && rangeindex < len(ordinals) && (forall j int :: 0 <= j && j < len(ordinals) ==> c21OK[ordinals[j]])
 //@   loop 2 invariant !c21Stale && !c21Touched
